@@ -19,6 +19,9 @@ func genC15() *rapid.Generator[SeqCase] {
 		pool := c15Names
 		pool = append(append([]string{}, c15Names...), gcs.HostileNames...) // URL-parser-hostile names (G6)
 		names := rapid.SliceOfNDistinct(rapid.SampledFrom(pool), 2, 5, func(s string) string { return s }).Draw(t, "names")
+		if names = gcs.ConflictFree(names); len(names) < 2 {
+			names = append(names, "zz-extra")
+		}
 		buckets := gcs.BucketPool[:rapid.IntRange(1, 2).Draw(t, "nbuckets")]
 		// seed some objects (one possibly empty)
 		for i, n := range names[:len(names)-1] {
